@@ -20,7 +20,7 @@ BIN = os.path.join(CRATE, 'target', 'release', 'verif-replay')
 # properties anchored in aiken-project use a second harness crate (heavier dependency tree, built only for them)
 CRATE_P = os.path.join(ROOT, 'replayp')
 BIN_P = os.path.join(CRATE_P, 'target', 'release', 'verif-replayp')
-PROJECT_PROPS = {'C18'}
+PROJECT_PROPS = {'C18', 'C09'}
 MODES = {
     'C02': ['optimizer'],
     'C03': ['cek', 'corpus'],
@@ -31,6 +31,7 @@ MODES = {
     'C11': ['debruijn', 'interner', 'named'],
     'C16': ['shrinker', 'proptest'],
     'C18': ['applyparam'],
+    'C09': ['determinism'],
 }
 
 
